@@ -737,10 +737,12 @@ func resultVals(r *ssa.Return, i int) (vals []ssa.Value, zero bool) {
 	return
 }
 
+// returnsOf lists the return instructions of fn; the synthetic recover block (reachable only after a
+// recovered panic, which no function here does) is not a normal exit and is skipped.
 func returnsOf(fn *ssa.Function) []*ssa.Return {
 	var out []*ssa.Return
 	instrsOf(fn, func(in ssa.Instruction) {
-		if r, ok := in.(*ssa.Return); ok {
+		if r, ok := in.(*ssa.Return); ok && r.Block() != fn.Recover {
 			out = append(out, r)
 		}
 	})
